@@ -145,6 +145,10 @@ def run(repo, run, tier):
     # (t0 + c_i h, y0 + h sum_j a_ij k_j); a stage pinned to a cached slope (e.g. the initial slope whenever c_i = 0) solves another method's equations
     from .c02 import stage_args
     stage_args(repo, run, rule_id="C01.8")
+    # the BCH conditions of C01.4 are conditions on the composition exp(a_1 hA) exp(b_1 hB) ...: the splitting step has that order only if it IS that composition
+    # (every sub-step evaluates the right-hand side once, at its own argument; no slope carried over from another call, whose constants may have changed)
+    from .c02 import splitting_clock
+    splitting_clock(repo, run, rule_id="C01.9")
 
 
 # ------------------------------------------------------------------------------------------------
